@@ -34,6 +34,8 @@
 #include <setjmp.h>
 #include <signal.h>
 #include <stdint.h>
+#include <sys/mman.h>
+static size_t		tablesBytes;
 
 /* ---- stubs for the few externals store.c/util.c need ------------------- */
 int _dont_assert = 0;
@@ -71,13 +73,13 @@ struct hblk {
 	int		gen;
 	struct hptr	ptr[MAXPTR];
 };
-static struct hblk	blk[MAXBLK];
+static struct hblk	*blk;		/* mmap'd; made read-only while the collector runs */
 
 /* The registered roots: a static array, scanned by the collector as data. */
 Pointer			hRoots[MAXROOT];
 
 struct hsect { uintptr_t xbase; long ord; int live; };
-static struct hsect	sects[MAXSECT];
+static struct hsect	*sects;
 static long		nsects = 0, nextOrd = 0;
 static uintptr_t	xorigin = 0; static int haveOrigin = 0;
 
@@ -383,9 +385,12 @@ doGc(void)
 	int id, ok = 1;
 	freed[0] = rel[0] = 0;
 	scrub();
+	/* the collector scans writable mappings only: keep it out of the harness tables */
+	mprotect(blk, tablesBytes, PROT_READ);
 	hJmpOk = 1;
 	if (setjmp(hJmp)) ok = 0; else stoGc();
 	hJmpOk = 0;
+	mprotect(blk, tablesBytes, PROT_READ | PROT_WRITE);
 	if (!ok) { printf("X assert-in-gc %s\n", hAssertMsg); fflush(stdout); _exit(3); }
 	for (id = 0; id <= maxId; id++) if (blk[id].live) {
 		if (!stoIsPointer((Pointer) (blk[id].xaddr ^ MASK))) {
@@ -475,6 +480,10 @@ main(int argc, char **argv)
 		if (nlines == cap) { cap = cap ? 2 * cap : 1024; lines = realloc(lines, cap * sizeof *lines); }
 		lines[nlines++] = strdup(buf);
 	}
+	tablesBytes = (MAXBLK * sizeof(struct hblk) + MAXSECT * sizeof(struct hsect) + 4095) & ~(size_t) 4095;
+	blk = mmap(NULL, tablesBytes, PROT_READ | PROT_WRITE, MAP_PRIVATE | MAP_ANONYMOUS, -1, 0);
+	if (blk == MAP_FAILED) { printf("X mmap\n"); return 7; }
+	sects = (struct hsect *) (blk + MAXBLK);
 	match = calloc(nlines + 1, sizeof *match);
 	stk = calloc(nlines + 1, sizeof *stk);
 	for (i = 0; i < nlines; i++) {
